@@ -290,6 +290,11 @@ func (e *Exec) load(p Ptr) Value {
 		e.goPanicRuntime("invalid memory address or nil pointer dereference")
 	}
 	e.monRead(p)
+	if e.pr != nil {
+		if v, ok := e.procLoad(p); ok {
+			return v
+		}
+	}
 	if len(p.Path) == 0 {
 		p.Obj.ownsArr = false // the loaded aggregate may now be shared
 		return p.Obj.V
@@ -302,6 +307,9 @@ func (e *Exec) store(p Ptr, v Value) {
 		e.goPanicRuntime("invalid memory address or nil pointer dereference")
 	}
 	e.monWrite(p)
+	if e.pr != nil && e.procStore(p, v) {
+		return
+	}
 	if len(p.Path) == 0 {
 		p.Obj.V = v
 		p.Obj.ownsArr = false
